@@ -4,7 +4,7 @@
 set -u
 ROOT=$(cd "$(dirname "$0")/.." && pwd)   # /verif, or a `vp run` snapshot of it
 D=$(realpath ${1%/}); TIER=${2:-quick}; PID=$(python3 -c "import json;print(json.load(open('$D/meta.json'))['property'])")
-T=$(mktemp -d /tmp/seedrun_XXXX); mkdir -p $T/r; cp -r /repo/note_seq $T/r/; (cd $T/r && git init -q . 2>/dev/null; git apply --unsafe-paths --directory=$T/r $D/patch.diff 2>/dev/null || patch -s -p1 -d $T/r < $D/patch.diff) 
+T=$(mktemp -d /tmp/seedrun_XXXX); mkdir -p $T/r; cp -r /repo/note_seq $T/r/; (cd $T/r && patch -s -p1 < $D/patch.diff >/dev/null 2>&1) || { echo "OBSOLETE $D: patch.diff does not apply to the current /repo"; rm -rf $T; exit 3; }
 OUT=$(cd $ROOT && PYTHONPATH=$T/r timeout 3000 ./check $PID $TIER 2>&1 | grep -E "VIOLATION|KNOWN|MACHINERY" | head -3); RC=$?
 rm -rf $T
 # restore generated files / build state for the clean tree
